@@ -193,6 +193,7 @@ def main(prop, tier='quick', replay=None, selftest=False, runs=None,
 
     known = load_known()
     directed = replay_known(mod, known)
+    DIRECTED_HITS[0] = sum(1 for k, hit in directed if hit)
     viol = [r for r in good if r.get('violations')]
     by_sig = {}
     for r in viol:
@@ -487,6 +488,9 @@ def sensitivity_info(prop):
     return out
 
 
+DIRECTED_HITS = [0]
+
+
 def write_evidence(mod, tier, seed, good, viol, known_lines, reported, wall,
                    stopped_early, nondet, harness):
     stats = {}
@@ -527,7 +531,10 @@ def write_evidence(mod, tier, seed, good, viol, known_lines, reported, wall,
             'grid_cells_covered': len({r['cell'] for r in good
                                        if r.get('cell') is not None}),
             'grid_size': getattr(mod, 'GRID', None),
-            'violating_runs': len(viol),
+            # seeded runs that violated, plus the directed replays of known
+            # findings that reproduced (those always run)
+            'violating_runs': len(viol) + DIRECTED_HITS[0],
+            'directed_known_replays_reproduced': DIRECTED_HITS[0],
             'known_findings_seen': known_lines,
             'new_violations': [s for s, _ in reported],
             'stopped_early_on_budget': stopped_early,
